@@ -519,7 +519,7 @@ def selftest(ctx):
 
 def plan_C01(ctx):
     ctx.extra["rule"] = ("Behaviours: every message derivable from the TLA+ generator Gen!GenMsg (first line x K header lines from a "
-        "44-line pool covering every value parser, folds, compact names, lone CR/LF terminators, WS before ':', empty values x blank "
+        "52-line pool covering every value parser, folds, compact names, lone CR/LF terminators, WS before ':', empty values x blank "
         "line) enumerated by TLC, plus seeded single-atom near-miss mutants. Code: per message x configuration (8 flag sets x 7 "
         "capacity pairs, rotated) fresh parse of every prefix; K=1 messages: ALL (suspended p -> q) pairs (=> all schedules by "
         "induction, full-state equality at suspensions); K=2: q in {p+1, n} + seeded sample. non-trivial = message with a "
